@@ -39,18 +39,20 @@ def is_tree_store(f, e):
 
 
 class Summ:
-    __slots__ = ('exits', 'may_alloc', 'violations', 'effect_any')
+    __slots__ = ('exits', 'exits3', 'may_alloc', 'violations', 'effect_any')
 
     def __init__(self):
         self.exits = set()
+        self.exits3 = set()      # (effect, return class, frozenset of (param index, 'null' | 'nonnull') for `*param = pointer` out-stores)
         self.may_alloc = False
         self.violations = []
         self.effect_any = False
 
 
 class Effects:
-    def __init__(self, cfg, prune_callee=lambda sig: False):
+    def __init__(self, cfg, prune_callee=lambda sig: False, tree_only=False):
         self.cfg = cfg
+        self.tree_only = tree_only      # effects = stores into the tree / obsoletion only (statistics, QSBR bookkeeping ignored)
         self.prune = prune_callee
         self.summ = {}
         self.in_progress = set()
@@ -85,7 +87,7 @@ class Effects:
                     if e.get('k') != 'call' or is_assert_elem(e):
                         continue
                     nm = e.get('name') or ''
-                    if (STATS_EFFECT.match(nm) and not infac) or nm in ('unlock_and_obsolete',) or (nm in ('register_thread', 'unregister_thread') and (e.get('cls') or '') == 'unodb::qsbr'):
+                    if nm in ('unlock_and_obsolete',) or (not self.tree_only and ((STATS_EFFECT.match(nm) and not infac) or (nm in ('register_thread', 'unregister_thread') and (e.get('cls') or '') == 'unodb::qsbr'))):
                         direct.add(f.sig)
                     tg = f.callee(e)
                     if tg is not None and tg.blocks:
@@ -195,7 +197,7 @@ class FnEff:
                 t = f.strip_casts(tgt)
                 if isinstance(t, dict) and t.get('k') == 'member' and isinstance(f.resolve(t['base']), dict) and f.resolve(t['base']).get('k') == 'this' and not self.is_ctor and f.cls.startswith(('unodb::db<', 'unodb::olc_db<', 'unodb::qsbr_per_thread', 'unodb::qsbr')):
                     eff = 'write of member `%s`' % t.get('name')
-            return None, eff
+            return None, (None if self.an.tree_only else eff)
         sig = f.callee_sig(e) if e.get('cid') is not None else None
         if k == 'new' and e.get('cid') is not None:
             sig = f.callee_sig(e)
@@ -214,6 +216,8 @@ class FnEff:
             eff = 'QSBR state update %s()' % nm
         elif k == 'call' and atomics_rmw(e) and f.cls.startswith(('unodb::db<', 'unodb::olc_db<', 'unodb::qsbr')) and not is_assert_elem(e):
             eff = 'atomic update of `%s`' % (atomics_path(f, e),)
+        if self.an.tree_only and eff is not None and not (eff.startswith('store into the tree') or eff == 'obsoletion'):
+            eff = None
         # callee with a body under the repository: its own summary
         tg = f.callee(e) if e.get('cid') is not None else None
         callee_allocs = False
@@ -275,11 +279,13 @@ class FnEff:
                 if alloc and ('Eff',) in world:
                     self.flag(e, alloc, world)
                 res = []
-                for (ceff, rc) in (s.exits or {(s.effect_any, 'other')}):
+                for (ceff, rc, outs) in (s.exits3 or {(a, b, frozenset()) for (a, b) in (s.exits or {(s.effect_any, 'other')})}):
                     w = set(world)
+                    w = self.apply_outs(w, e, tg, outs)
                     if ceff and effd:
                         w.add(('Eff',))
                         w.add(('Why', effd))
+                        out.effect_any = True
                     w = {x for x in w if x[0] != 'CallRet'}
                     w.add(('CallRet', id(e), rc))
                     res.append(frozenset(w))
@@ -319,6 +325,16 @@ class FnEff:
                             r = f.ref_of(e['l'])
                             if r:
                                 w2 = assign(w2, r[0], e['r'])
+                            else:
+                                pi = self.out_param(e['l'])
+                                if pi is not None:
+                                    d = self.desc(e['r'], w2)
+                                    w3 = {x for x in w2 if not (x[0] == 'Out' and x[1] == pi)}
+                                    if 'Null' in d:
+                                        w3.add(('Out', pi, 'null'))
+                                    elif 'NonNull' in d:
+                                        w3.add(('Out', pi, 'nonnull'))
+                                    w2 = frozenset(w3)
                         elif k == 'call' and e.get('ck') == 'op' and e.get('op') == '=' and len(e.get('args', [])) == 2:
                             r = f.ref_of(e['args'][0])
                             l = f.strip_casts(e['args'][0])
@@ -327,6 +343,7 @@ class FnEff:
                         elif k == 'return':
                             rc = self.retclass(e, w2)
                             out.exits.add((('Eff',) in w2, rc))
+                            out.exits3.add((('Eff',) in w2, rc, frozenset((x[1], x[2]) for x in w2 if x[0] == 'Out')))
                         nxt.add(w2)
                 cur = nxt
                 if len(cur) > 48:
@@ -355,8 +372,47 @@ class FnEff:
         # a function without return statements (void falling off the end): exit world
         if not out.exits:
             out.exits = {(out.effect_any, 'void')}
+        if len(out.exits3) > 24 or {(a, b) for (a, b, c) in out.exits3} != out.exits:
+            out.exits3 = set()
         out.violations = list(self.sites.values())
         return out
+
+    def out_param(self, o):
+        """index of the pointer parameter p when o is `*p` (a store through an out-parameter)"""
+        f = self.f
+        l = f.strip_casts(o)
+        if isinstance(l, dict) and l.get('k') == 'unop' and l.get('op') == '*':
+            r = f.strip_casts(l['sub'])
+            if isinstance(r, dict) and r.get('k') == 'ref' and r.get('vk') == 'param':
+                for i, p in enumerate(f.params):
+                    if p['did'] == r['did']:
+                        return i
+        return None
+
+    def apply_outs(self, w, e, tg, outs):
+        """out-stores of the callee: `&local` arguments learn the nullness, own parameters passed on keep it as their own"""
+        if not outs:
+            return w
+        f = self.f
+        args = e.get('args', [])
+        if e.get('ck') == 'op' and e.get('method') and args:
+            args = args[1:]
+        for (pi, cls) in outs:
+            if pi >= len(args):
+                continue
+            a = f.strip_casts(args[pi])
+            if isinstance(a, dict) and a.get('k') == 'unop' and a.get('op') == '&':
+                r = f.ref_of(a['sub'])
+                if r:
+                    w = {x for x in w if not (len(x) > 1 and x[1] == r[0] and x[0] in ('Null', 'NonNull'))}
+                    w.add(('Null' if cls == 'null' else 'NonNull', r[0]))
+            else:
+                r = f.ref_of(args[pi])
+                for i, p in enumerate(f.params):
+                    if r and p['did'] == r[0]:
+                        w = {x for x in w if not (x[0] == 'Out' and x[1] == i)}
+                        w.add(('Out', i, cls))
+        return w
 
     def flag(self, e, alloc, world):
         why = [x[1] for x in world if x[0] == 'Why']
@@ -380,6 +436,8 @@ class FnEff:
         if k == 'unop' and e.get('op') == '&':
             return ('NonNull',)
         if k == 'call':
+            if e.get('name') in ('unwrap_fake_critical_section', 'move', 'forward') and e.get('args'):
+                return self.desc(e['args'][0], world, depth + 1)
             for x in world:
                 if x[0] == 'CallRet' and x[1] == id(e):
                     return self.rc_atoms(x[2])
